@@ -94,6 +94,17 @@ def bodyPieces (e : Entry) (m : Media) : Option (List Bytes) :=
 
 def readBody (e : Entry) (m : Media) : Option Bytes := (bodyPieces e m).map List.flatten
 
+/-- the pieces delivered before the first unreadable sector (what a streaming
+    visitor has already consumed when BadFileSystem is thrown) -/
+def bodyPrefix (m : Media) : Nat → Nat → Nat → List Bytes → List Bytes
+  | 0, _, _, acc => acc.reverse
+  | k + 1, sec, len, acc =>
+    match m sec with
+    | none => acc.reverse
+    | some buf =>
+      let v := if len > 256 then 256 else len
+      bodyPrefix m k (sec + 1) (len - v) (buf.take v :: acc)
+
 /-- `CatalogEntry::has_name` -/
 def Entry.hasName (e : Entry) (p : ParsedName) : Bool :=
   p.dir == e.directory && ciEqual p.name (rtrimB e.nameStr)
@@ -654,7 +665,8 @@ def extractLoop (dest : Bytes) (ctxDir : Nat) (data : Media) : List Entry → Li
     match bodyPieces e data with
     | none =>
       -- the body file has been created; the pieces read before the failure were written
-      .threw { err := true, files := files ++ [(path, [])] }
+      .threw { err := true, files := files ++
+        [(path, (bodyPrefix data (e.lastSector + 1 - e.startSector) e.startSector e.fileLength []).flatten)] }
     | some pieces =>
       let body := pieces.flatten
       extractLoop dest ctxDir data rest
